@@ -211,6 +211,7 @@ class Program:
         from . import canon as _canon
 
         _canon.METHOD_NAMES = _canon.method_names([t for *_x, t in pending])
+        _canon.INIT_ONLY_ATTRS = _canon.init_only_attrs([t for *_x, t in pending])
         for modname, path, rel, src, tree in pending:
             self.modules[modname] = ModuleInfo(modname, path, src, tree=tree, props=self.property_names)
             self.files.append(rel)
